@@ -79,6 +79,38 @@ Proof.
     pose proof (IH (upd a l false)). pose proof (IH (upd a l true)). lia.
 Qed.
 
+(** the count only reads the levels that occur in [u] *)
+Lemma nsat_occ_indep s u ls : Inv s → valid s u →
+  ∀ a b, (∀ j, occurs s u j → j ∈ ls ∨ a j = b j) → nsat s u ls a = nsat s u ls b.
+Proof.
+  intros HI Hu. induction ls as [|l ls IH]; intros a b H; cbn [nsat].
+  - rewrite (D_indep_occ s u a b HI Hu); [done|].
+    intros j Hj. destruct (H j Hj) as [?%elem_of_nil|?]; done.
+  - f_equal; apply IH; intros j Hj; unfold upd; case_decide; auto;
+      destruct (H j Hj) as [[?|?]%elem_of_cons|?]; auto; done.
+Qed.
+
+(** over the support, the count does not depend on the values outside it *)
+Lemma nsat_support_indep s u ls a b : Inv s → valid s u →
+  (∀ j, occurs s u j → j ∈ ls) → nsat s u ls a = nsat s u ls b.
+Proof. intros HI Hu H. apply nsat_occ_indep; try done. intros j Hj. left. auto. Qed.
+
+(** every additional variable doubles the count *)
+Lemma nsat_extend s u l1 l2 : Inv s → valid s u →
+  (∀ l, l ∈ l1 → ¬ occurs s u l) →
+  ∀ a, nsat s u (l1 ++ l2) a = (2 ^ Z.of_nat (length l1) * nsat s u l2 a)%Z.
+Proof.
+  intros HI Hu. induction l1 as [|l l1 IH]; intros Hall a; cbn [app length nsat].
+  - change (Z.of_nat 0) with 0%Z. rewrite Z.pow_0_r. lia.
+  - rewrite !IH by (intros l' Hl'; apply Hall; by right).
+    rewrite Nat2Z.inj_succ, Z.pow_succ_r by lia.
+    rewrite (nsat_occ_indep s u l2 HI Hu (upd a l false) a),
+            (nsat_occ_indep s u l2 HI Hu (upd a l true) a).
+    + ring.
+    + intros j Hj. right. apply upd_other. intros ->. by apply (Hall l); [left|].
+    + intros j Hj. right. apply upd_other. intros ->. by apply (Hall l); [left|].
+Qed.
+
 (** ** The levels of a set inside an interval, in increasing order *)
 Definition LX (X : gset nat) (from len : nat) : list nat :=
   filter (fun l => l ∈ X) (seq from len).
@@ -161,29 +193,50 @@ Definition a0 : nat → bool := fun _ => false.
 Definition Nc (s : st) (X : gset nat) (u : Z) : Z :=
   nsat s u (LX X (lvl_of s u) (nvars s - lvl_of s u)) a0.
 
-Lemma Nc_branch s X u t c (b : bool) : Inv s → (0 < u)%Z → valid s u →
+Lemma lvl_flip s c u : lvl_of s (flip c u) = lvl_of s c.
+Proof. unfold flip. case_decide; [apply lvl_neg|done]. Qed.
+
+Lemma Nc_branch_sgn s X u t c (b : bool) : Inv s → valid s u →
   succ s !! absn u = Some t → absn u ≠ 1%positive →
   valid s c → t_lvl t < lvl_of s c → c = (if b then t_hi t else t_lo t) →
   nsat s u (LX X (S (t_lvl t)) (nvars s - S (t_lvl t))) (upd a0 (t_lvl t) b)
-  = (Nc s X c * 2 ^ Z.of_nat (length (LX X (S (t_lvl t)) (lvl_of s c - S (t_lvl t)))))%Z.
+  = (Nc s X (flip c u) *
+     2 ^ Z.of_nat (length (LX X (S (t_lvl t)) (lvl_of s c - S (t_lvl t)))))%Z.
 Proof.
-  intros HI Hpos Hu Ht Hn Hc Hlt Ec.
+  intros HI Hu Ht Hn Hc Hlt Ec.
   pose proof (lvl_le s HI c Hc) as Hle.
-  rewrite (nsat_congr s u c).
+  pose proof (valid_flip s c u Hc) as Hcf.
+  rewrite (nsat_congr s u (flip c u)).
   - replace (nvars s - S (t_lvl t))
       with ((lvl_of s c - S (t_lvl t)) + (nvars s - lvl_of s c)) by lia.
     rewrite LX_app.
     replace (S (t_lvl t) + (lvl_of s c - S (t_lvl t))) with (lvl_of s c) by lia.
     rewrite nsat_below; [|done|done|].
-    + unfold Nc. rewrite (nsat_indep s c _ HI Hc (upd a0 (t_lvl t) b) a0).
+    + unfold Nc. rewrite lvl_flip.
+      rewrite (nsat_indep s (flip c u) _ HI Hcf (upd a0 (t_lvl t) b) a0).
       * ring.
-      * intros j Hj. apply upd_other. lia.
-    + apply Forall_forall. intros x Hx%elem_of_LX. lia.
+      * intros j Hj. rewrite lvl_flip in Hj. apply upd_other. lia.
+    + apply Forall_forall. intros x Hx%elem_of_LX. rewrite lvl_flip. lia.
   - intros b' Hb'. rewrite (D_step s HI u b' t Hu Ht Hn).
-    rewrite bool_decide_eq_false_2 by lia. rewrite xorb_false_l.
+    rewrite (D_flip s HI) by done. f_equal.
     rewrite Hb'.
     + rewrite upd_same. subst c. by destruct b.
     + intros Hin%elem_of_LX. lia.
+Qed.
+
+Lemma Nc_node_sgn s X u t : Inv s → valid s u →
+  succ s !! absn u = Some t → absn u ≠ 1%positive → t_lvl t ∈ X →
+  Nc s X u =
+  (Nc s X (flip (t_lo t) u) * 2 ^ Z.of_nat (length (LX X (S (t_lvl t)) (lvl_of s (t_lo t) - S (t_lvl t)))) +
+   Nc s X (flip (t_hi t) u) * 2 ^ Z.of_nat (length (LX X (S (t_lvl t)) (lvl_of s (t_hi t) - S (t_lvl t)))))%Z.
+Proof.
+  intros HI Hu Ht Hn HiX.
+  destruct (inv_node _ HI _ _ Ht Hn) as (Hln&Hvl&Hhp&Hvh&Hll&Hlh&Hne).
+  unfold Nc at 1. unfold lvl_of at 1 2. rewrite Ht.
+  replace (nvars s - t_lvl t) with (S (nvars s - S (t_lvl t))) by lia.
+  rewrite LX_cons by done. cbn [nsat].
+  rewrite (Nc_branch_sgn s X u t (t_lo t) false),
+          (Nc_branch_sgn s X u t (t_hi t) true); done.
 Qed.
 
 Lemma Nc_node s X u t : Inv s → (0 < u)%Z → valid s u →
@@ -192,12 +245,8 @@ Lemma Nc_node s X u t : Inv s → (0 < u)%Z → valid s u →
   (Nc s X (t_lo t) * 2 ^ Z.of_nat (length (LX X (S (t_lvl t)) (lvl_of s (t_lo t) - S (t_lvl t)))) +
    Nc s X (t_hi t) * 2 ^ Z.of_nat (length (LX X (S (t_lvl t)) (lvl_of s (t_hi t) - S (t_lvl t)))))%Z.
 Proof.
-  intros HI Hpos Hu Ht Hn HiX.
-  destruct (inv_node _ HI _ _ Ht Hn) as (Hln&Hvl&Hhp&Hvh&Hll&Hlh&Hne).
-  unfold Nc at 1. unfold lvl_of at 1 2. rewrite Ht.
-  replace (nvars s - t_lvl t) with (S (nvars s - S (t_lvl t))) by lia.
-  rewrite LX_cons by done. cbn [nsat].
-  rewrite (Nc_branch s X u t (t_lo t) false), (Nc_branch s X u t (t_hi t) true); done.
+  intros HI Hpos Hu Ht Hn HiX. rewrite (Nc_node_sgn s X u t) by done.
+  unfold flip. by rewrite !decide_False by lia.
 Qed.
 
 Lemma Nc_1 s X : Inv s → Nc s X 1 = 1%Z.
@@ -209,6 +258,18 @@ Lemma Nc_m1 s X : Inv s → Nc s X (-1) = 0%Z.
 Proof.
   intros HI. unfold Nc. rewrite (lvl_term s HI (-1)) by done. rewrite Nat.sub_diag.
   cbn. by rewrite (D_m1 s HI).
+Qed.
+
+Lemma nsat_elements_Nc s X u : Inv s → valid s u → (∀ l, l ∈ X → l < nvars s) →
+  nsat s u (elements X) a0 = (2 ^ Z.of_nat (rank X (lvl_of s u)) * Nc s X u)%Z.
+Proof.
+  intros HI Hu HXlt.
+  rewrite (nsat_perm s u _ _ (LX_elements X (nvars s) HXlt)).
+  pose proof (lvl_le s HI u Hu) as Hle.
+  replace (nvars s) with (lvl_of s u + (nvars s - lvl_of s u)) at 1 by lia.
+  rewrite LX_app, Nat.add_0_l.
+  rewrite nsat_below; [done|done|done|].
+  apply Forall_forall. intros x Hx%elem_of_LX. lia.
 Qed.
 
 (** ** [_sat_len] *)
@@ -432,4 +493,23 @@ Proof.
   split; [done|]. destruct n as [k|]; cbn in Hr; [done|].
   rewrite decide_False in Hr by lia. rewrite Hr, Nat.sub_diag.
   change (Z.of_nat 0) with 0%Z. rewrite Z.pow_0_r, Z.mul_1_r. done.
+Qed.
+
+(** [count(u, k)] is the number of satisfying assignments over the support
+    and any [k - |support|] further variables *)
+Corollary count_spec_vars s u k r s' X extra a : Inv s → valid s u →
+  support_levels u s = (Ok X, s) →
+  size X ≤ k → length extra = k - size X → (∀ l, l ∈ extra → l ∉ X) →
+  count u (Some k) s = (r, s') →
+  s' = s ∧ r = Ok (nsat s u (extra ++ elements X) a).
+Proof.
+  intros HI Hu HsX Hk Hlen Hdis Hrun.
+  destruct (count_spec s u (Some k) r s' X HI Hu HsX Hrun) as [-> Hr].
+  split; [done|]. rewrite decide_False in Hr by lia. rewrite Hr. f_equal.
+  destruct (support_levels_occ s HI u _ _ Hu HsX) as (_&X'&[= <-]&HXo).
+  rewrite nsat_extend; [|done|done|].
+  - rewrite Hlen.
+    rewrite (nsat_support_indep s u (elements X) a (fun _ => false)); [ring|done|done|].
+    intros j Hj. by apply elem_of_elements, HXo.
+  - intros l Hl Ho. apply (Hdis l Hl). by apply HXo.
 Qed.
